@@ -294,6 +294,38 @@ fn c09_consume_never_panics() {
     kani::cover!(now < last_ms, "clock behind last_fill");
 }
 
+/// C09: the public constructor with *any* i64 burst / rate and any refill period of whole
+/// milliseconds (the embedder-facing API), followed by one consume after an arbitrary time
+/// advance: never panics (overflow checks on), and a rejected configuration is an error.
+#[kani::proof]
+#[kani::unwind(4)]
+#[kani::stub(tokio::time::Instant::now, cstubs::now)]
+#[kani::stub(n0_error::backtrace_enabled, vstubs::backtrace_disabled)]
+fn c09_public_new_then_consume_never_panics() {
+    let max: i64 = kani::any();
+    let rate: i64 = kani::any();
+    let period_ms: u32 = kani::any();
+    cstubs::set(0);
+    let r = Bucket::new(max, rate, time::Duration::from_millis(period_ms as u64));
+    match r {
+        Ok(mut b) => {
+            assert!(max > 0 && rate > 0 && period_ms > 0 && b.refill > 0);
+            let now: u64 = kani::any();
+            kani::assume(now <= (1 << 41));
+            cstubs::set(now);
+            let n: usize = kani::any();
+            let res = b.consume(n);
+            assert!(b.fill <= b.max);
+            if res.is_ok() {
+                assert!(b.fill > 0);
+            }
+        }
+        Err(e) => {
+            core::mem::forget(e);
+        }
+    }
+}
+
 #[kani::proof]
 #[kani::unwind(4)]
 #[kani::stub(tokio::time::Instant::now, cstubs::now)]
